@@ -18,13 +18,7 @@ from .report import Check, finish
 PROPS = ["C%02d" % i for i in range(1, 20)]
 
 
-def run_rules(prop: str, repo: Repo, tier: str) -> Check:
-    mod = importlib.import_module("gtirb_static.rules.%s" % prop.lower())
-    chk = Check(prop, repo, tier)
-    mod.run(chk)
-    from .rules.wellformed import check as wellformed
-    wellformed(chk)
-    return chk
+from .runner import run_rules  # noqa: E402,F401
 
 
 def cmd_check(argv: list) -> int:
